@@ -57,21 +57,35 @@ def main():
     finally:
         sh("git -C /repo worktree remove --force %s" % scratch)
     print("confirmed:", res["confirmed"], {k: v.get("rc") if isinstance(v, dict) else v for k, v in res["ran"].items()})
-    # 2. run the checks against the change applied to /repo
-    rc, o = sh("git -C /repo status --porcelain")
-    if o.strip():
-        print("/repo is dirty"); sys.exit(2)
-    rc, o = sh("git -C /repo apply %s" % patch)
+    # 2. run the checks against the change applied to /repo (or, with SEED_SCRATCH=1 while a long background run
+    #    is using /repo, applied to a fresh scratch worktree that the checks build from through VERIF_REPO)
+    alt = os.environ.get("SEED_SCRATCH")
+    if alt:
+        target = "/tmp/wtv/" + name + "-run"
+        sh("git -C /repo worktree remove --force %s" % target)
+        rc, o = sh("git -C /repo worktree add -q --detach %s HEAD" % target)
+        envp = "VERIF_REPO=%s VERIF_OUT=/tmp/wtv/%s-out " % (target, name)
+    else:
+        target, envp = "/repo", ""
+        rc, o = sh("git -C /repo status --porcelain")
+        if o.strip():
+            print("/repo is dirty"); sys.exit(2)
+    rc, o = sh("git -C %s apply %s" % (target, patch))
     try:
         res["checks"] = {}
+        res["applied_to"] = target
         for c in checks:
-            rc, o = sh("VERIF_NO_EVIDENCE=1 VERIF_TLC_TIMEOUT=900 ./check %s --tier quick" % c, cwd="/verif")
+            rc, o = sh(envp + "VERIF_NO_EVIDENCE=1 VERIF_TLC_TIMEOUT=900 ./check %s --tier quick" % c, cwd="/verif")
             viol = [l for l in o.splitlines() if l.startswith("VIOLATION")]
             detail = [l for l in o.splitlines() if l.startswith("  case=")][:3]
             res["checks"][c] = {"exit": rc, "violations": len(viol), "detail": detail}
             print("check", c, "exit", rc, "VIOLATION lines", len(viol), detail[:1])
     finally:
-        sh("git -C /repo checkout -- .")
+        if alt:
+            sh("git -C /repo worktree remove --force %s" % target)
+            shutil.rmtree("/tmp/wtv/%s-out" % name, ignore_errors=True)
+        else:
+            sh("git -C /repo checkout -- .")
     json.dump(res, open(os.path.join(out, "meta.json"), "w"), indent=1)
 
 
